@@ -179,8 +179,8 @@ theorem mutateCtr_spec (pc : PC) (h : IsTier pc) (c : Ctr) :
     intro d r e he
     unfold restrict
     rw [he]
-    cases h1 : d.req e <;> cases h2 : d.lim e <;> simp only [] <;> refine ⟨rfl, rfl, ?_⟩ <;> intro x <;>
-      by_cases hx : x = e <;> simp [RL.set, hx, h1, h2] <;> cases d.req x <;> simp
+    cases h1 : d.req e <;> cases h2 : d.lim e <;> simp only [h1, h2] <;> refine ⟨trivial, trivial, ?_⟩ <;> intro x <;>
+      by_cases hx : x = e <;> simp [RL.set, hx, h1] <;> cases d.req x <;> simp
   have hc : resourceNameMap pc Res.cpu = some (tierCPU pc) := by rcases h with rfl | rfl <;> rfl
   have hm : resourceNameMap pc Res.memory = some (tierMem pc) := by rcases h with rfl | rfl <;> rfl
   have hne : tierCPU pc ≠ tierMem pc := by rcases h with rfl | rfl <;> simp [tierCPU, tierMem]
@@ -261,7 +261,7 @@ theorem mutateCtr_idempotent (pc : PC) (c : Ctr) : mutateCtr pc (mutateCtr pc c)
     have hno : ∀ (d : Ctr) (r e : Res), resourceNameMap pc r = some e → (d.lim e ≠ none → d.req e ≠ none) → restrict pc d r = d := by
       intro d r e he himp
       unfold restrict; rw [he]
-      cases h1 : d.req e <;> cases h2 : d.lim e <;> simp only []
+      cases h1 : d.req e <;> cases h2 : d.lim e <;> simp only [h1, h2]
       exact absurd h1 (himp (by simp [h2]))
     have hc : resourceNameMap pc Res.cpu = some (tierCPU pc) := by rcases h with rfl | rfl <;> rfl
     have hm : resourceNameMap pc Res.memory = some (tierMem pc) := by rcases h with rfl | rfl <;> rfl
